@@ -319,6 +319,28 @@ def run_v0(st, tier):
                for n, f in items.frames().items() if len(f["payload"]) >= 2]
     for it in corpus.build(tier) + special:
         if it["kind"] == "fail":
+            # a payload that does not decode: with validation off the OUTCOME (exception class and
+            # text) must not depend on the trailer either
+            frame = pinned.frame(it["payload"])
+
+            def outcome(buf):
+                try:
+                    return ("ok", R.public_attrs(RTCMReader.parse(buf, validate=0)))
+                except Exception as err:  # pylint: disable=broad-except
+                    return ("exc", type(err).__name__, str(err))
+
+            ref_o = outcome(frame)
+            for bit in (0, 7, 8, 23):
+                d = bytearray(frame)
+                d[len(d) - 3 + bit // 8] ^= 0x80 >> (bit % 8)
+                out = core.Outcome()
+                got_o = outcome(bytes(d))
+                if got_o != ref_o:
+                    out.bad("validate0-crc-bytes-influence-result:failing-payload",
+                            f"{it['name']}: with validate=0 a payload that does not decode gives {ref_o[:2]} "
+                            f"under its right trailer but {got_o[:2]} with trailer bit {bit} flipped")
+                out.obs = core.h64(bytes(d))
+                st.add({"kind": "v0f", "name": it["name"], "bit": bit}, out)
             continue
         frame = pinned.frame(it["payload"])
 
@@ -368,6 +390,52 @@ def run_v0(st, tier):
             st.add({"kind": "v0h", "name": it["name"]}, out)
 
 
+def run_mutable(st):
+    """
+    The same bytearray OBJECT handed in again after the caller changed it in place (a receive
+    buffer that is reused): the result belongs to the bytes it holds NOW.
+    """
+    from pyrtcm import RTCMReader, calc_crc24q, crc2bytes  # pylint: disable=import-outside-toplevel
+    from pyrtcm.exceptions import RTCMParseError  # pylint: disable=import-outside-toplevel
+
+    for ln in list(range(8, 40)) + [64, 256]:
+        frame = pinned.frame(items.unknown_payload(ln - 6, 4021, ln))
+        buf = bytearray(frame)
+        out = core.Outcome()
+        try:
+            if calc_crc24q(buf) != 0:
+                out.bad("crc-value-wrong", f"bytearray frame of {ln} B: non-zero remainder")
+            RTCMReader.parse(buf, validate=1)
+            for pos in (0, ln // 2, ln - 1):
+                buf[pos] ^= 0x10  # in place: same object, other content
+                want = pinned.crc24q_table(bytes(buf))
+                got = calc_crc24q(buf)
+                if got != want:
+                    out.bad("crc-value-wrong:buffer-changed-in-place",
+                            f"calc_crc24q of a {ln}-byte bytearray after an in-place change at {pos}: "
+                            f"{got:#08x}, its content has {want:#08x}")
+                    break
+                if crc2bytes(buf) != want.to_bytes(3, "big"):
+                    out.bad("crc-value-wrong:buffer-changed-in-place", f"crc2bytes, {ln} B, position {pos}")
+                    break
+                try:
+                    RTCMReader.parse(buf, validate=1)
+                    out.bad("damage-not-rejected:buffer-changed-in-place",
+                            f"a {ln}-byte bytearray frame validated once, then changed in place at octet {pos}, "
+                            f"is accepted by parse(validate=1)")
+                    break
+                except RTCMParseError:
+                    pass
+                except Exception:  # pylint: disable=broad-except
+                    pass
+                buf[pos] ^= 0x10
+                RTCMReader.parse(buf, validate=1)
+        except Exception as err:  # pylint: disable=broad-except
+            out.bad("crc-value-wrong", f"bytearray input of {ln} B: {type(err).__name__}: {err}")
+        out.obs = core.h64(frame)
+        st.add({"kind": "mutable", "len": ln}, out)
+
+
 @core.guard
 def judge(case):
     """Replay of a single recorded case."""
@@ -410,6 +478,7 @@ def _work(fam):
         run_crc_family(fam, st)
     elif fam["kind"] == "v0":
         run_v0(st, fam["tier"])
+        run_mutable(st)
     else:
         run_err_family(fam, st)
     return st
